@@ -19,11 +19,11 @@ CHECKS = {
  "C03": dict(technique=DBE + "; complete sweeps over all 684 paired EvtGen names as CDecay subject and over alias spellings (every initial letter, both ChargeConj orientations)",
              text="Every file with <=k deviations from the default CDecay scenario (naming, statement order (all 24), source via CopyDecay, Decay for X, missing source, self-conjugate subject, 1..4 CDecay statements, unrelated tables) is parsed with the switch on and off and the whole set of tables is compared with the reference conjugation built from the raw particle data files.",
              note="Bound 2 / 3 deviations; names that are the subject of two CDecay statements and non-involutive ChargeConj tables are outside the space.", ref="3/C03"),
- "C06": dict(technique="complete enumeration of the model-name table: 135 names x 5 contexts, all 30 prefix pairs in both orders, 1044 prefix registrations, user names with regex metacharacters, ~2000 near-miss unknown words (accept/reject oracle on the real parser)",
+ "C06": dict(technique="complete enumeration of the model-name table: 135 names x 5 contexts, all 30 prefix pairs in both orders, 1044 prefix registrations, user names with regex metacharacters, ~2000 near-miss unknown words (accept/reject oracle on the real parser); plus explicit-state BFS over histories of parser instances in one forked process (registration sets / ModelAlias definitions x model words)",
              text="All published names, all prefix-related pairs, every proper prefix of a published name registered as a user model, and near-miss unknown words are run through the real parser; accepted texts are compared field by field with the AST, unknown words must raise.",
              note="Complete over the stated tables; user names ending in a non-word character are outside the space.", ref="3/C06"),
  "C07": dict(technique=DBE + "; complete enumeration of PHOTOS-flag sequences (<=4 flags x 3 positions each), label alphabet and numeric-form sweeps for every statement kind",
-             text="Files with 0..3 statements of each of the 14 global statement kinds (colliding names, value forms, positions relative to Decay blocks, repeated lineshape settings) within the deviation bound are parsed and every global query is compared, typed, with the reference later-wins semantics.",
+             text="Files with 0..3 statements of each of the 14 global statement kinds (colliding names, value forms, positions relative to Decay blocks, repeated lineshape settings, (a,b,a) and verbatim-repeat patterns) within the deviation bound are parsed and every global query is compared, typed, with the reference later-wins semantics; a BFS over histories of files parsed in one forked process (files re-using the same names with other meanings) checks that the answers for a file do not depend on what was parsed before.",
              note="Bound 2 / 3 deviations; default widths only for names with a known reference width.", ref="3/C07"),
  "C08": dict(technique="explicit-state BFS over histories of public queries on the real DecFileParser (every returned value destructively mutated, re-parse with either switch), each history in a forked pristine process, state hashing on the full query snapshot + hidden tree fingerprint; plus complete enumeration of CopyDecay scenarios against the reference semantics",
              text="All histories of length <=2 (3 on the smallest files in thorough) over ~40 query/mutation operations on generated files and fixtures are executed; after the last step every answer must equal that of a freshly parsed instance and no two decay tables may share a tree node, child list or token object. The CopyDecay clause is checked on the complete product of its scenario dimensions.",
@@ -37,13 +37,13 @@ CHECKS = {
  "C11": dict(technique="complete enumeration: all final states of <=4 names in every order and constructor form, 420 decay modes x metadata kinds, all 806 EvtGen PDG IDs, all 35420 single chains with <=4 decaying particles (every mapping order for <=3) over real and arbitrary names, all single-line parser chains; oracle = reference to_dict built position by position + round trips",
              text="Every enumerated object is built through the real classes; to_dict must equal the independently built dictionary (every occurrence of a decaying particle expanded), from_dict(to_dict) must reproduce mother, sub-decays, bf, daughter multisets and metadata, and parser chains must survive the class form up to daughter order.",
              note="Chains with unreachable sub-decays, model_params=None and metadata keys colliding with constructor parameters are outside the space.", ref="3/C11"),
- "C12": dict(technique="complete enumeration of single chains (<=4 decaying particles complete; <=6 with branching <=2 in thorough) x every stable subset x mapping orders; exact arithmetic oracle (distinct prime reciprocals as Fractions, dyadic floats) so the exponent of each prime is the number of times a decay was counted",
+ "C12": dict(technique="complete enumeration of single chains (<=4 decaying particles complete; <=6 with branching <=2 in thorough) x every stable subset x mapping orders, and call sequences on ONE chain object (every ordered pair of stable subsets, then visible_bf, then flatten()); exact arithmetic oracle (distinct prime reciprocals as Fractions, dyadic floats) so the exponent of each prime is the number of times a decay was counted",
              text="flatten() of the real DecayChain is compared with the reference leaf multiset and exact product for every chain, stable set and mapping order; metadata of the result, immutability of the original and visible_bf are checked as well.",
              note="Quick: all permutations of the mapping for <=3 decaying particles, identity/reverse/rotations for 4.", ref="3/C12"),
  "C13": dict(technique="complete enumeration of single chains (as C11) x 3 name sets (parentheses, primes, signs) x 6 bracketing patterns x all input orders; oracle = independent bracket-matching reader recovering the nested multiset",
              text="Every rendered descriptor is read back by a reader that does not share code with the library and must give exactly the tree the chain was built from, for the default and user patterns (top pattern at the top, sub pattern at every nested level), and one string for every input order.",
              note="Names with unbalanced brackets of the pattern in use are outside the space.", ref="3/C13"),
- "C15": dict(technique="complete enumeration of chain dictionaries (table-set shapes incl. 0..5 lines per particle, repeated decaying daughters, empty tables, zero-daughter lines, EvtGen-specific spellings; all single chains with <=3 decaying particles through the class form) read back through `dot -Tdot_json`; explicit-state exploration of all sessions of <=3 (4) viewers in one forked process for the identifier clause",
+ "C15": dict(technique="complete enumeration of chain dictionaries (table-set shapes incl. 0..5 lines per particle, repeated decaying daughters, empty tables, zero-daughter lines, EvtGen-specific spellings; all single chains with <=3 decaying particles through the class form) read back through `dot -Tdot_json`; explicit-state exploration of all sessions of <=3 (4) viewers (default-named and named) in one forked process, every graph of a session checked in full, for the identifier clause",
              text="The DOT text of the real DecayChainViewer is parsed by Graphviz itself; the node/edge/port/label structure must be isomorphic to the reference graph (one node and one labelled edge per decay line, daughters in order), node names unique within a graph and decay-line node ids disjoint across the graphs of a session.",
              note="Trusted base: graphviz 2.43 as the reader of DOT; cell texts use particle's own LaTeX->HTML conversion.", ref="3/C15"),
  "C16": dict(technique="complete product: 8 branching-fraction patterns (ties, ties at the maximum, 1e-12..1, 7+ digits) x 6 table lengths x 3 line-content variants x 48 option combinations + 7 invalid ones; oracle with exact Fractions and a 7-significant-digit comparison",
@@ -52,15 +52,15 @@ CHECKS = {
  "C17": dict(technique=DBE + " over AmpGen option texts (3 event types, 1..4 complete and 0..6 partial lines, spin/lineshape tags, coupling forms, fix flags, parameter/constant lines, 6 layouts, the cartesian option 0/1/absent at 3 positions); each text is read in a forked pristine child",
              text="Every option text within the deviation bound is read by the real AmplitudeChain.read_ampgen; event type, parameter table, constants table and the list of amplitudes (tree, tags, coupling as mag*exp(i*phase) or re+i*im) must equal the reference cartesian expansion in file order.",
              note="Bound 2 / 3 deviations; vocabulary limited to a hand-written name->PDG-ID table; the harness memoises the pure name lookup (checked against unmemoised runs).", ref="3/C17"),
- "C18": dict(technique="complete enumeration: all 3962 (binary tree shape, leaf multiplicity pattern, event-type arrangement) cases for the permutation set; all 26 supported spin structures/topologies x 4^k lineshape kinds x event-type orders x both output classes for the generated code, read back by independent front-ends",
+ "C18": dict(technique="complete enumeration: all 3962 (binary tree shape, leaf multiplicity pattern, event-type arrangement) cases plus 1227 chains over proper sub-multisets of the event type for the permutation set; all 29 supported spin structures/topologies (event types with 1, 2, 4, 6 and 24 permutations) x 4^k lineshape kinds x event-type orders x both output classes for the generated code, read back by independent front-ends",
              text="list_structure must return exactly the injective assignments; the code generated by both output classes must contain, per permutation, the expected spin factors (frozen copy of the table + form factor from the triangle rule), one lineshape per resonance of the declared kind and L with mass indices from the same permutation, and declare the number of permutations.",
              note="The spin-structure table is a frozen copy (its physics is not judged); mass symbols compared as written.", ref="3/C18"),
  "C19": dict(technique=DBE + " over four-body option files (26 spin structures, 6 lineshape tags per resonance, fixed/free couplings, spline / K-matrix / extra parameter families written in scrambled order) + the shipped model + the command-line entry point; both outputs read back into one structure, declared-before-use analysis, and execution of the Python output against a recording stand-in of goofit",
              text="For every file within the bound the C++ and Python outputs of the real converters must contain the same event type, constants, resonance variables, parameters, arrays and amplitudes (names, values, fixedness, spin factors, lineshapes and their arguments), every model symbol must be declared before use, the Python text must compile and run, and ret_output text must equal the printed text.",
              note="Known finding F9 (symbol sA_0 never declared for kMatrix lineshapes) is matched by signature and reported as KNOWN-FINDING; bound 2 / 3 deviations.", ref="3/C19"),
- "C20": dict(technique="explicit-state BFS over histories of read/convert calls (3 reader classes + 2 converters x 4 option files = 20 operations), every history in a forked pristine process, state = fingerprint of the class-level sets/switches/tables; oracle = the same last call alone in a genuinely fresh interpreter; coverage-driven enumeration of PYTHONHASHSEED values until every iteration order of the 3-element string sets has been observed",
-             text="All histories of length <=2 (3 in thorough) are executed on the real classes; amplitudes, tables and the canonicalised output text of the last call must equal those of the call alone in a fresh interpreter. Fresh interpreters with successive hash seeds must give canonically equal output (and identical text for equal seeds) until all 6 orders of the spin-configuration and spline-array sets have been seen.",
-             note="Pool of four option files (cartesian 1 / 0 / absent, K-matrix, splines); hash-order effects are covered through the permutations they can produce, not all 2^32 seeds.", ref="3/C20"),
+ "C20": dict(technique="explicit-state BFS over histories of read/convert calls (3 reader classes + 2 converters + 2 text-input readers x 4 option files = 28 operations), every history in a forked pristine process, state = fingerprint of the class-level sets/switches/tables; oracle = the same last call alone in a genuinely fresh interpreter; coverage-driven enumeration of PYTHONHASHSEED values until every iteration order of the 3-element string sets has been observed",
+             text="All histories of length <=2 plus all 756 of the form (a, b, a) (length <=3 in thorough) are executed on the real classes; amplitudes, tables and the canonicalised output text of the last call must equal those of the call alone in a fresh interpreter. Fresh interpreters with successive hash seeds must give canonically equal output (and identical text for equal seeds) until all 6 orders of the spin-configuration and spline-array sets have been seen.",
+             note="Pool of four option files (partial lines defined differently in two of them, a cartesian twin with equal structure and other numbers, K-matrix, splines); hash-order effects are covered through the permutations they can produce, not all 2^32 seeds.", ref="3/C20"),
  "C14": dict(technique="explicit-state BFS over call histories of the real DescriptorFormat (state hashing on config + hidden per-object state) against a stack reference model; second driver through real with-blocks",
              text="Every history of create/enter/leave/leave-by-exception/set/invalid-set operations up to the stated length (all histories up to the forced depth, state-hashed beyond) is executed on the real class and compared after every step with a stack model of the format in force; bounded exhaustive, no sampling.",
              note="Bounded by history length and at most 3 context objects; two valid and eight invalid pattern pairs.", ref="3/C14"),
